@@ -35,20 +35,8 @@ theorem table_eq_spec_incremental (fw : Fw) (rules : List Rule) (p : Packet) (in
 /-- A rule that `AddRule` refuses (unknown protocol, start port above end port) changes nothing, and those are
 exactly the rules the specification calls invalid. -/
 theorem refused_iff_invalid (cfg : Cfg) (t : Table) (r : Rule) :
-    (∃ e, t.addRule cfg r = .error e) ↔ ruleValid r = false := by
-  unfold Table.addRule ruleValid
-  simp only [Gen.firewall_ProtoTCP, Gen.firewall_ProtoUDP, Gen.firewall_ProtoAny, isICMP_eq, beq_iff_eq]
-  by_cases h6 : r.proto = 6
-  · by_cases hp : r.startPort > r.endPort <;> simp [h6, hp, Spec.Fw.isICMP] <;> omega
-  · by_cases h17 : r.proto = 17
-    · by_cases hp : r.startPort > r.endPort <;> simp [h17, hp, Spec.Fw.isICMP] <;> omega
-    · by_cases h1 : r.proto = 1
-      · simp [h1, Spec.Fw.isICMP]
-      · by_cases h58 : r.proto = 58
-        · simp [h58, Spec.Fw.isICMP]
-        · by_cases h0 : r.proto = 0
-          · by_cases hp : r.startPort > r.endPort <;> simp [h0, hp, Spec.Fw.isICMP] <;> omega
-          · simp [h6, h17, h1, h58, h0, Spec.Fw.isICMP]
+    (∃ e, t.addRule cfg r = .error e) ↔ ruleValid r = false :=
+  table_refused_iff cfg t r
 
 /-- **drop_no_conntrack.** For a tuple with no connection-tracking state (no entry, no routine-cache line),
 `Drop` lets the packet through iff both address checks pass and some rule of the matching direction matches.
